@@ -178,9 +178,17 @@ func verifyGeneration(c *rig.Cluster, account string, pubKey []byte, participant
 			continue
 		}
 		sigs[id] = sig
-		// Listing.
 		n := c.Nodes[id]
 		creds := &checker.Credentials{Client: rig.DefaultClient, RequestID: "l"}
+		// The same through the other addressing mode: by the share's public key.
+		if _, acc, err := n.Rig.RealFetch.FetchAccount(n.Rig.Ctx, account); err == nil {
+			res2, sig2 := n.Rig.Signer.SignGeneric(n.Rig.Ctx, &checker.Credentials{Client: rig.DefaultClient, RequestID: "s", IP: "10.0.0.1"}, "", acc.PublicKey().Marshal(),
+				&rules.SignData{Domain: domain, Data: data})
+			if !bytes.Equal(sig2, sig) {
+				probs = append(probs, fmt.Sprintf("participant %d signs with %s addressed by name but not addressed by its share public key right after generation (result %s)", id, account, resLetter(res2)))
+			}
+		}
+		// Listing.
 		_, list := n.Rig.Lister.ListAccounts(n.Rig.Ctx, creds, []string{account})
 		found := false
 		for _, a := range list {
